@@ -354,7 +354,7 @@ def judge(ctx, exe_hk, runs, what, cfg="MSTrace.cfg", drift=False):
             nrej += 1
             if drift:
                 if nrej <= 3:
-                    ctx.spec_drift("MS", "event does not conform to the strict model (LFE flag / byte budgeting): %s [%s]" % (ev[:300], cmd[:200]))
+                    ctx.spec_drift("MS", "event does not conform to the strict model (LFE flag / byte budgeting / first of several input channels coded): %s [%s]" % (ev[:300], cmd[:200]))
                 continue
             kf = known_match(e)
             if kf:
@@ -558,7 +558,7 @@ def run(ctx):
             for ip, op, rc, err in runs1 + runs2:
                 with open(op) as f:
                     for ln in f:
-                        if ln.startswith('{"k":"pk"') or (ln.startswith('{"k":"cr"') and '"t":"surr"' in ln):
+                        if ln.startswith('{"k":"pk"') or ln.startswith('{"k":"tn"') or (ln.startswith('{"k":"cr"') and '"t":"surr"' in ln):
                             fo.write(ln)
         judge(ctx, exe_hk, [(None, ps, 0, "")], "C10 strict", cfg="MSTraceStrict.cfg", drift=True)
     # vacuity guards: every event kind was produced and judged
